@@ -4,6 +4,8 @@ import (
 	"math/big"
 
 	. "gethverif/harness/hxlib"
+	"github.com/ethereum/go-ethereum/common"
+	"github.com/ethereum/go-ethereum/crypto"
 )
 
 // ---------------------------------------------------------------------------
@@ -236,6 +238,7 @@ func genCase(r *Rng, wild bool) bcase {
 		t.pre = append(t.pre, acct{addr: coinbase, balance: big.NewInt(int64(r.Intn(100)))})
 	}
 	ntx := 1 + r.Intn(5)
+	var createdAddrs []*big.Int // addresses that earlier creation transactions of this block give birth to
 	for i := 0; i < ntx; i++ {
 		s := r.Intn(len(eoas))
 		x := txn{typ: []int{0, 0, 1, 2, 2, 2}[r.Intn(6)], from: eoas[s], nonce: nonces[s], blobfeecap: new(big.Int)}
@@ -277,12 +280,16 @@ func genCase(r *Rng, wild bool) bcase {
 			if x.gas < 80000 {
 				x.gas += 100000
 			}
+			createdAddrs = append(createdAddrs, new(big.Int).SetBytes(crypto.CreateAddress(common.BigToAddress(x.from), x.nonce).Bytes()))
 		case 1: // plain transfer
 			x.to = []*big.Int{eoas[r.Intn(4)], big.NewInt(0x2222), big.NewInt(int64(0x7000 + r.Intn(6))), coinbase}[r.Intn(4)]
 			x.data = r.Bytes(r.Intn(30))
 		default:
 			x.to = caddrs[r.Intn(ncon)]
 			x.data = r.Bytes(r.Intn(70))
+		}
+		if x.to != nil && len(createdAddrs) > 0 && r.Chance(1, 3) {
+			x.to = createdAddrs[r.Intn(len(createdAddrs))] // a contract born earlier in this block
 		}
 		if x.typ >= 1 && r.Chance(1, 2) {
 			ac := access{addr: caddrs[r.Intn(ncon)]}
@@ -329,6 +336,10 @@ func genCase(r *Rng, wild bool) bcase {
 		}
 		t.txs = append(t.txs, x)
 	}
+	t.split = 1 << 20
+	if len(t.txs) >= 2 && r.Chance(1, 4) {
+		t.split = 1 + r.Intn(len(t.txs)-1) // two blocks
+	}
 	for i := r.Intn(4); i > 0; i-- {
 		to := []*big.Int{eoas[r.Intn(4)], caddrs[r.Intn(ncon)], big.NewInt(int64(0x7000 + r.Intn(6))), coinbase}[r.Intn(4)]
 		t.ws = append(t.ws, [2]*big.Int{to, big.NewInt(int64(r.Intn(5000)))})
@@ -338,9 +349,15 @@ func genCase(r *Rng, wild bool) bcase {
 
 func gen(r *Rng, tier string, emit func(Sx)) {
 	r = NewRng(r.U64())
-	n := 300
+	n, nLife := 240, 60
 	if tier == "thorough" {
-		n = 6000
+		n, nLife = 5000, 2000
+	}
+	// contract life cycles across transactions and blocks, systematically and at random
+	systematicLives(r.Fork(), func(t bcase) { emit(t.sx()) })
+	for i := 0; i < nLife; i++ {
+		rr := r.Fork()
+		emit(buildLife(rr, randomLife(rr)).sx())
 	}
 	for i := 0; i < n; i++ {
 		t := genCase(r.Fork(), i%6 == 5)
